@@ -13,7 +13,9 @@ Record gobs := mkG {
   g_newepoch : list N;       (* ComputeNextBlockValidators *)
   g_blocked : list N;        (* accounts of the universe for which Policy.isBlocked answers true, ascending *)
   g_policy : list Z;         (* FeePerByte, BaseExecFee (pico), StoragePrice (pico) *)
-  g_whitelist : list (N * Z) (* cached whitelisted fees (Policy.getWhitelistFeeContracts): (deployer account, fee), ascending *)
+  g_whitelist : list (N * Z);(* cached whitelisted fees (Policy.getWhitelistFeeContracts): (deployer account, fee), ascending *)
+  g_roles : list (N * Z * list N);   (* RoleManagement.getDesignatedByRole(role, index) = keys, for the queried (role, index) *)
+  g_contracts : list (N * (Z * Z))   (* Management.getContract of the storage contract of account a: (id, update counter) *)
 }.
 
 Record gblock := mkGB { gb_txs : list tx; gb_obs : gobs }.
@@ -29,13 +31,21 @@ Definition model_obs (cfg : config) (st : state) : gobs :=
        (if hf_faun cfg then aget 0 18%N (p_cache (A st)) else aget 0 18%N (p_cache (A st)) * 10000);
        aget 0 19%N (p_cache (A st)) * 10000]
       (flat_map (fun a => match whitelisted_fee st a with Some f => [(a, f)] | None => [] end)
+                (map N.of_nat (seq 0 32)))
+      [] (* role queries are answered per query, see roles_agree *)
+      (flat_map (fun a => let c := contract_of st a in if mc_present c then [(a, (mc_id c, mc_counter c))] else [])
                 (map N.of_nat (seq 0 32))).
+
+Definition roles_agree (st : state) (qs : list (N * Z * list N)) : bool :=
+  forallb (fun '(role, idx, ks) => nlist_eqb (snd (designated st role idx)) ks) qs.
 
 Definition gobs_eqb (a b : gobs) : bool :=
   nlist_eqb (g_committee a) (g_committee b) && nlist_eqb (g_next a) (g_next b)
   && nlist_eqb (g_newepoch a) (g_newepoch b) && nlist_eqb (g_blocked a) (g_blocked b)
   && zlist_eqb (g_policy a) (g_policy b)
-  && list_eqb (fun x y => N.eqb (fst x) (fst y) && (snd x =? snd y)) (g_whitelist a) (g_whitelist b).
+  && list_eqb (fun x y => N.eqb (fst x) (fst y) && (snd x =? snd y)) (g_whitelist a) (g_whitelist b)
+  && list_eqb (fun x y => N.eqb (fst x) (fst y) && (fst (snd x) =? fst (snd y)) && (snd (snd x) =? snd (snd y)))
+              (g_contracts a) (g_contracts b).
 
 Fixpoint mem_Z (x : Z) (l : list Z) : bool := match l with [] => false | y :: t => (x =? y) || mem_Z x t end.
 
@@ -52,13 +62,14 @@ Fixpoint run_gov (cfg : config) (restarts : list Z) (st : option state) (bs : li
           | Some s' =>
               let s'' := if mem_Z (height (A s')) restarts then reinit cfg s' else s' in
               gobs_eqb (model_obs cfg s') (gb_obs b) && gobs_eqb (model_obs cfg s'') (gb_obs b)
+              && roles_agree s' (g_roles (gb_obs b)) && roles_agree s'' (g_roles (gb_obs b))
               && run_gov cfg restarts (Some s'') r
           end
       end
   end.
 
 Definition hyps_ok (cfg : config) (blocks : list gblock) : bool :=
-  cfg_wf_b cfg && forallb (fun b => forallb (fun t => negb (N.eqb (t_signer t) (a_notary cfg))) (gb_txs b)) blocks.
+  cfg_wf_b cfg && forallb (fun b => forallb (fun t => negb (N.eqb (t_wit cfg t) (a_notary cfg))) (gb_txs b)) blocks.
 
 Definition check_case (c : case) : N :=
   match c with
